@@ -321,12 +321,21 @@ class Prototype:
         """
         return component_type()
 
+    def _init_method(self, component_type):
+        """Find the init method for the given component type."""
+        method = getattr(self, f'{self.init_prefix}{component_type.__name__}',
+                         None)
+        # An attribute that happens to be named that way (eg.
+        # ``init_prefix`` itself, for a type named ``prefix``) is not
+        # an init method
+        if not callable(method):
+            method = self._default_init
+
+        return self.init_methods.get(component_type, method)
+
     def __iter__(self):
         """Yield instantiated components."""
-        return (self.init_methods.get(
-                comp_t,
-                getattr(self, f'{self.init_prefix}{comp_t.__name__}',
-                        self._default_init))(comp_t)
+        return (self._init_method(comp_t)(comp_t)
                 for comp_t in self.component_types)
 
 
